@@ -129,8 +129,10 @@ func main() {
 		lk := readLock(*lock)
 		skipObl = func(name string) bool { return lk[lockKey(*tags, name)] == "u" }
 	}
+	leanRace = tmo < 30000
 	verdicts := discharge(results, *workers, tmo, seed, *keep)
 	skipObl = nil
+	leanRace = false
 	// retry undecided obligations that the lock records as discharged, with thorough limits
 	lockSet := readLock(*lock)
 	lockFam := lockFamilies(lockSet)
